@@ -27,25 +27,25 @@ type DecidedBlock struct {
 	Misbehavior []abci.Misbehavior
 	NextValHash []byte
 	Resp        *abci.ResponseFinalizeBlock
-	ELCalls     []EngineCall // engine calls of the reference execution
+	ELCalls     []EngineCall           // engine calls of the reference execution
 	Vals        *cmttypes.ValidatorSet // the set this block was proposed under
-	Honest      bool // built by an honest proposer without engine trouble
-	WellBehaved bool // ... on a payload whose user operations all passed the contract guards
+	Honest      bool                   // built by an honest proposer without engine trouble
+	WellBehaved bool                   // ... on a payload whose user operations all passed the contract guards
 }
 
 type Cmt struct {
-	w        *World
-	Height   int64
-	AppHash  []byte
-	Time     time.Time
-	Params   *cmtproto.ConsensusParams
-	Vals     *cmttypes.ValidatorSet // validators of height Height+1
-	NextVals *cmttypes.ValidatorSet // validators of height Height+2
-	LastVals *cmttypes.ValidatorSet // validators of height Height
-	Blocks   map[int64]*DecidedBlock
-	Halted   string
-	Undecided int
-	Recent   map[string]int64 // validators that left the set: address -> last height they were in it
+	w           *World
+	Height      int64
+	AppHash     []byte
+	Time        time.Time
+	Params      *cmtproto.ConsensusParams
+	Vals        *cmttypes.ValidatorSet // validators of height Height+1
+	NextVals    *cmttypes.ValidatorSet // validators of height Height+2
+	LastVals    *cmttypes.ValidatorSet // validators of height Height
+	Blocks      map[int64]*DecidedBlock
+	Halted      string
+	Undecided   int
+	Recent      map[string]int64 // validators that left the set: address -> last height they were in it
 	RecentPower map[string]int64
 	// validator updates accumulated from genesis, for C13
 	AccPower map[string]int64
@@ -89,11 +89,11 @@ func (c *Cmt) proposerFor(round int) *cmttypes.Validator {
 
 // RoundSpec says what happens in one round before (or at) the deciding one.
 type RoundSpec struct {
-	Kind    string         `json:"kind"` // honest | proposer-down | drop | crash-proposer | byz
-	Mut     string         `json:"mut,omitempty"`
-	Forced  bool           `json:"forced,omitempty"`
-	Faults  []*NodeFault   `json:"faults,omitempty"`
-	Junk    []string       `json:"junk,omitempty"`
+	Kind   string       `json:"kind"` // honest | proposer-down | drop | crash-proposer | byz
+	Mut    string       `json:"mut,omitempty"`
+	Forced bool         `json:"forced,omitempty"`
+	Faults []*NodeFault `json:"faults,omitempty"`
+	Junk   []string     `json:"junk,omitempty"`
 }
 
 type NodeFault struct {
@@ -111,25 +111,25 @@ type CrashSpec struct {
 
 type EvidenceSpec struct {
 	Addr      string `json:"addr,omitempty"` // hex address of a validator that is not (any more) in the set; overrides Val
-	Val       int   `json:"val"` // index into the current validator set
-	AgeBlocks int64 `json:"age_blocks"`
-	AgeSec    int64 `json:"age_sec"`
-	Light     bool  `json:"light,omitempty"`
+	Val       int    `json:"val"`            // index into the current validator set
+	AgeBlocks int64  `json:"age_blocks"`
+	AgeSec    int64  `json:"age_sec"`
+	Light     bool   `json:"light,omitempty"`
 }
 
 type BlockArgs struct {
-	DtMs      int64          `json:"dt_ms"`
-	Absent    []int          `json:"absent,omitempty"` // indices into the set that signed the previous block
-	Evidence  []EvidenceSpec `json:"evidence,omitempty"`
-	Rounds    []RoundSpec    `json:"rounds,omitempty"`
-	Crashes   []CrashSpec    `json:"crashes,omitempty"`
-	FinFaults []*NodeFault   `json:"fin_faults,omitempty"` // engine faults while finalising
-	Restart   []int          `json:"restart,omitempty"`    // nodes to restart before this block
-	ELRestart []int          `json:"el_restart,omitempty"`
-	SkewMs    map[string]int `json:"skew_ms,omitempty"` // node -> new wall-clock offset
-	Reexec    int            `json:"reexec,omitempty"`  // node+1 that executes the block a second time on a fork of its disk (C07)
-	ShadowDiff int           `json:"shadow_diff,omitempty"` // node+1 on whose pre-block disk the block is executed with and without its failed transactions
-	MultiSched int           `json:"multi_sched,omitempty"` // PrepareProposal is repeated under this many extra schedules and must give the same proposal
+	DtMs       int64          `json:"dt_ms"`
+	Absent     []int          `json:"absent,omitempty"` // indices into the set that signed the previous block
+	Evidence   []EvidenceSpec `json:"evidence,omitempty"`
+	Rounds     []RoundSpec    `json:"rounds,omitempty"`
+	Crashes    []CrashSpec    `json:"crashes,omitempty"`
+	FinFaults  []*NodeFault   `json:"fin_faults,omitempty"` // engine faults while finalising
+	Restart    []int          `json:"restart,omitempty"`    // nodes to restart before this block
+	ELRestart  []int          `json:"el_restart,omitempty"`
+	SkewMs     map[string]int `json:"skew_ms,omitempty"`     // node -> new wall-clock offset
+	Reexec     int            `json:"reexec,omitempty"`      // node+1 that executes the block a second time on a fork of its disk (C07)
+	ShadowDiff int            `json:"shadow_diff,omitempty"` // node+1 on whose pre-block disk the block is executed with and without its failed transactions
+	MultiSched int            `json:"multi_sched,omitempty"` // PrepareProposal is repeated under this many extra schedules and must give the same proposal
 }
 
 const maxRounds = 60
